@@ -16,6 +16,8 @@ Definition exceptions : list exception := [
     "SyncPointer<u8> = the creator's address of the managed memory.  allocate() uses it only arithmetically (align(start + pos) - start; the returned pointer start + offset is turned back into an offset by the shm allocator before it leaves the process) and the cal shm allocators hand out PointerOffset values only.  NOT address free in the strict sense: cal BumpAllocator::grow and PoolAllocator::grow(.., ContentPlacement::Back) dereference start_address() + offset, which is valid only in the creating process (harness subjects calbumpgrow / calpoolgrow exhibit it).";
   mk_exc "iceoryx2_bb_memory::pool_allocator::PoolAllocator" "start"
     "SyncPointer<u8> = the creator's address of bucket 0; allocate/deallocate_bucket use it only in index arithmetic ((ptr - start) / bucket_size, start + index * bucket_size); the cal PoolAllocator subtracts start_address() again before an offset leaves the process.  Same caveat for grow(Back) as above.";
+  mk_exc "iceoryx2_bb_posix::ipc_capable::internal::HandleStorage" "handle"
+    "UnsafeCell<T> with T not bounded by ZeroCopySend in `unsafe impl<T> ZeroCopySend for HandleStorage<T>`; T is instantiated with posix::sem_t / pthread_mutex_t / pthread_rwlock_t / pthread_barrier_t: OS objects initialised PTHREAD_PROCESS_SHARED, whose position independence is the operating system's contract.";
   mk_exc "iceoryx2_bb_concurrency::atomic::Atomic" "0"
     "iceoryx2_pal_concurrency_sync::atomic::Atomic<T> with T: internal::AtomicInteger, a sealed trait implemented for the integer primitives only; the bound is not spelled as ZeroCopySend."
 ].
